@@ -58,7 +58,8 @@ def judge_case(c, r):
         if st == "ok" and d == exp["s"]:
             drift = impl != exp
         elif st == "ok" and (mode != "rt" or r["enc"] == c["bytes"]) and any(a["impl"] == {"def": True, "s": d} for a in c["alts"]):
-            # lopdf returned exactly what the impl-shaped layer predicts for a set of confirmed deviations
+            # lopdf returned exactly what the impl-shaped layer predicts for a set of deviations (alts range over all
+            # five classes, the two repaired ones included, so that a regression carries its own signature)
             for a in c["alts"]:
                 if a["impl"] == {"def": True, "s": d}:
                     for sg in a["sigs"]:
@@ -158,7 +159,8 @@ def run(tier):
                 "strings / pages. Non-trivial: the string has a control or non-ASCII scalar, or raw bytes / a table cell / a "
                 "page are involved; distinct by input (mode+string+bytes, table+byte, record inputs)")
     w = workdir("c16")
-    # (M)+(G): as the code is (deviation classes must be exactly the classified ones), replayed into lopdf
+    # (M)+(G): as the code is (Dev = AsIsDevs: pdfdoc.c0 and utf8.bom.kept are repaired by fix: commits; the remaining
+    # deviation classes must be exactly the classified ones), replayed into lopdf
     for cfg in (["MC_TextString_quick.cfg"] if tier == "quick" else ["MC_TextString_thorough.cfg", "MC_TextString_len4.cfg"]):
         run_mc(chk, cfg, tier, w)
     # (M): as repaired -- the impl-shaped layer without the confirmed deviations refines the declarative layer outright
